@@ -75,7 +75,8 @@ def explore(ctx, case: Dict[str, Any], max_preempt: int, limit: int):
     n = 0
     while queue and n < limit:
         dev = queue.popleft()
-        res = P.run_case(ctx.scratch, _fix_case(case), dev_chooser(dict(dev)), tag="c01")
+        inj = {f"A{i}": mk() for i, mk in (case.get("injectors") or {}).items()}
+        res = P.run_case(ctx.scratch, _fix_case(case), dev_chooser(dict(dev)), tag="c01", inject=inj or None)
         key = tuple(res.schedule)
         if key in seen:
             continue
@@ -265,7 +266,7 @@ def check_runs(ctx, name: str, runs: List[Tuple[Dict[str, Any], Any, P.CaseResul
 
 
 def _case_json(case: Dict[str, Any]) -> Dict[str, Any]:
-    return {k: v for k, v in case.items() if k != "yield_filter"}
+    return {k: v for k, v in case.items() if k not in ("yield_filter", "injectors")}
 
 
 def run(ctx) -> None:
